@@ -41,6 +41,10 @@ def record_random(task):
     cls = _cls()[d]
     if outcome_of(lambda: cls.check_schema(S))[0] != "ok":
         return []
+    if i % 4 == 0:
+        # a class obtained from extend() with nothing changed: its errors locate themselves exactly as its parent's do
+        import jsonschema.validators as V
+        cls = V.extend(cls)
     out = []
     for j in range(3):
         I = g.instance(S)
@@ -113,7 +117,8 @@ def main(args):
             for I in sc["instances"]:
                 rid += 1
                 try:
-                    rec, plain = errrec.make_record(rid, d, cls, copy.deepcopy(sc["schema"]), copy.deepcopy(I), base=base, loc=True,
+                    used = js.validators.extend(cls) if rid % 2 else cls          # (every other one through extend(cls))
+                    rec, plain = errrec.make_record(rid, d, used, copy.deepcopy(sc["schema"]), copy.deepcopy(I), base=base, loc=True,
                                                     resolver_for=resolver_for)
                 except Exception:
                     continue
